@@ -115,7 +115,12 @@ func (w *c19Walk) groupOrder(g *XMLComponentMember) []int {
 func c19Doc() (*XMLDoc, *XMLComponentMember) {
 	// B = [F4, (F5)?]
 	b := &XMLComponent{Name: "B", Members: []*XMLComponentMember{c19Field("F4", c19Req("B.F4.required"))}}
-	if ndBool("B.has-F5") {
+	var c *XMLComponent
+	if ndBool("B.has-component-C") {
+		// a third level: B = [F4, component C], C = [F5]
+		c = &XMLComponent{Name: "C", Members: []*XMLComponentMember{c19Field("F5", c19Req("C.F5.required"))}}
+		b.Members = append(b.Members, c19Comp("C", c19Req("B.C.required")))
+	} else if ndBool("B.has-F5") {
 		b.Members = append(b.Members, c19Field("F5", c19Req("B.F5.required")))
 	}
 	// A = [F1, (component B | group F3{F2, component B})]
@@ -138,6 +143,9 @@ func c19Doc() (*XMLDoc, *XMLComponentMember) {
 	comps := []*XMLComponent{a, b}
 	if ndBool("declare-B-first") {
 		comps = []*XMLComponent{b, a}
+	}
+	if c != nil {
+		comps = append(comps, c) // declared after its first use
 	}
 	doc := &XMLDoc{Type: "FIX", Major: "4", Minor: "4", Fields: c19Fields(), Components: comps, Messages: []*XMLComponent{msg},
 		Header:  &XMLComponent{Name: "Header", Members: []*XMLComponentMember{c19Field("BeginString", "Y")}},
